@@ -3,7 +3,10 @@
 API tier: checks/c08_api.py (Lease.tla delegation half on the real authority.Cache and
 the resolver's lease arithmetic).  Pipeline tier: checks/c08_pipe.py (LeasePipe.tla
 scenarios played by scripted parent/child authoritative servers against the real
-edns+cache+resolver pipeline; oracle = the referral log the scripted parent served).
+edns+cache+resolver pipeline; oracle = the referral log the scripted parent served; its
+long-lease family runs referral TTLs of 6 h / 1 d / 2 d against the statement's 12 h ceiling
+under a virtual clock, and logs -- without a verdict -- what the resolver's un-timed NS-host
+address maps do when an out-of-zone name-server host moves).
 Derived-entry tier: checks/x08al.py (AliasLease.tla: what an alias chase served from
 cache re-publishes must end with the lease of the delegation it was learned through).
 """
